@@ -35,6 +35,13 @@ inductive Micro where
   | ctor (weak : Bool)          -- construction of a store shell (importer / graph object); `weak` = its creation guard
                                 -- is a truthiness test on a store class that can be falsy (`if not X.storage_instance`
                                 -- with `__len__`/`__bool__` on the store): an existing but empty store is then replaced
+  | reinit                      -- `self.__init__(...)` / `self.lock = ...` inside a method: fresh containers, fresh counters
+                                -- and a NEW lock object (free, whoever held the old one)
+  -- the atoms the instructions above consist of (one attribute / dictionary primitive of CPython each), see `FineM`
+  | ld (c : Nat)                -- tmp := ctr c                 (first half of `bump`)
+  | st (c k : Nat)              -- ctr c := tmp + k             (second half of `bump`)
+  | ins (c g off : Nat)         -- insert the single id reg+off into id space c, owner g   (one step of `add`)
+  | rmOne (g : Nat)             -- remove one node owned by g   (one step of `del`)
   deriving DecidableEq, Repr, Inhabited
 
 inductive Stmt where
@@ -311,6 +318,9 @@ inductive DQ where
   | out | idle
   | rd (c : Nat) | rdB (c k : Nat) | rdA (c k : Nat)
   | clr (c : Nat) | fil (c n : Nat)
+  | rdl (c : Nat)               -- `rd c` and the first half of a bump done
+  | rdAl (c k : Nat)            -- `rdA c k` and the first half of the bump done
+  | rdBp (c k i : Nat)          -- `rdB c k` and `i` of the `k` ids inserted
   | bad
   deriving DecidableEq, Repr, Inhabited
 
@@ -342,6 +352,19 @@ def discStep : DQ → Micro → DQ
   | .clr c, .delSpace c' => if c' = c then .clr c else .bad
   | .clr c, .addFrom c' _ lo k => if c' = c then .fil c (lo + k) else .bad
   | .fil c n, .setCtr c' v => if c' = c ∧ v = n then .idle else .bad
+  | .fil c n, .addFrom c' _ lo k => if c' = c ∧ n ≤ lo then .fil c (lo + k) else .bad    -- filling goes on above what is there
+  -- atoms
+  | .rdBp _ _ _, .rel => .out                                    -- an insertion interrupted half-way: the ids are below the counter
+  | .idle, .rmOne _ => .idle
+  | .rd c, .ld c' => if c' = c then .rdl c else .bad
+  | .rdl c, .st c' k => if c' = c then .rdB c k else .bad
+  | .rdA c k, .ld c' => if c' = c then .rdAl c k else .bad
+  | .rdAl c k, .st c' k' => if c' = c ∧ k' = k then .idle else .bad
+  | .rd c, .ins c' _ off => if c' = c ∧ off = 0 then .rdA c 1 else .bad
+  | .rdA c j, .ins c' _ off => if c' = c ∧ off = j then .rdA c (j + 1) else .bad
+  | .rdB c k, .ins c' _ off => if c' = c ∧ off = 0 ∧ 0 < k then (if k = 1 then .idle else .rdBp c k 1) else .bad
+  | .rdBp c k i, .ins c' _ off =>
+    if c' = c ∧ off = i ∧ i < k then (if i + 1 = k then .idle else .rdBp c k (i + 1)) else .bad
   | .clr c, .setCtr c' _ => if c' = c then .idle else .bad      -- the id space is empty: any counter value is above every id
   | _, _ => .bad
 
